@@ -174,7 +174,11 @@ class Check:
             try:
                 sub = Check(self.pid)
                 sub.timeout = self.timeout
-                sub.unit(relpath, fn, contracts, int_mode, num_mode, **kw)
+                post = kw.pop('post', None)
+                res = sub.unit(relpath, fn, contracts, int_mode, num_mode, **kw)
+                if post is not None and res is not None:
+                    post(sub, res)
+                out['rows'].extend(sub.extra_results)
                 vs = discharge(sub.obs, timeout_s=sub.timeout) if sub.obs else []
                 vs = sub._case_split(vs)
                 for v in vs:
